@@ -21,6 +21,40 @@ pub fn run(rng: &mut Rng, n: usize, rep: &mut Report) {
                 continue;
             }
             let post = rng.u64_mixed();
+            // half of the cases go through the mint-account wrapper the handlers call (calculate_pre_fee_spl_deposit_amount):
+            // a real Token-2022 mint with an older and a newer fee and an arbitrary epoch on either side of the switch
+            if rng.chance(1, 2) {
+                use spl_token_2022::extension::{transfer_fee::TransferFeeConfig, BaseStateWithExtensions, StateWithExtensions};
+                let mut w = crate::world::World::new();
+                let mint = w.add_mint(crate::world::TokenKind::T22Fee { bps, max_fee: max }, 6);
+                let (nb, _) = gen_cfg(rng);
+                let act_epoch = rng.below(6);
+                if rng.chance(2, 3) {
+                    w.schedule_fee_change(&mint, if rng.chance(1, 3) { 0 } else { nb.min(10000) }, max, act_epoch);
+                }
+                let epoch = rng.below(8);
+                let mut acct = w.get(&mint).unwrap().clone();
+                let owner = acct.owner;
+                let mut lam = acct.lamports;
+                let fee_of = {
+                    let st = StateWithExtensions::<spl_token_2022::state::Mint>::unpack(&acct.data).unwrap();
+                    let cfg = *st.get_extension::<TransferFeeConfig>().unwrap();
+                    move |x: u64| cfg.calculate_epoch_fee(epoch, x)
+                };
+                let r = {
+                    let ai = anchor_lang::prelude::AccountInfo::new(&mint, false, false, &mut lam, &mut acct.data, &owner, false, 0);
+                    std::panic::catch_unwind(std::panic::AssertUnwindSafe(|| marginfi::utils::calculate_pre_fee_spl_deposit_amount(ai, post, epoch)))
+                };
+                if let Ok(Ok(pre)) = r {
+                    if let Some(fee) = fee_of(pre) {
+                        rep.bump("prefee_mint");
+                        if pre - fee < post {
+                            rep.fail(format!("pre-fee amount from the mint account does not cover: the receiver gets {} of the {} credited (sent {}, fee {} at epoch {}, switch at epoch {})", pre - fee, post, pre, fee, epoch, act_epoch));
+                        }
+                    }
+                }
+                continue;
+            }
             let t = tf(bps, max);
             if let Ok(Some(pre)) = std::panic::catch_unwind(|| calculate_pre_fee_amount(&t, post)) {
                 if let Some(fee) = t.calculate_fee(pre) {
